@@ -2,7 +2,7 @@ import RbV.Basic.Codec
 import RbV.Ref.SA
 import RbV.Model.Kasai
 import RbV.Model.Sus
-import RbV.Model.SampledSA
+import RbV.Model.SampledGet
 import RbV.Model.OccTable
 /-! Driver for property C03 (suffix array, LCP, shortest unique substrings, sampled suffix array).
 
